@@ -92,6 +92,7 @@ func (hs *hSet) add(ev string, h Handler) Remover {
 		event:   ev,
 		handler: h,
 	}
+	vhook("hset.add", nil, hs, ev, hn)
 	if !ok {
 		l.start = hn
 	} else {
@@ -106,6 +107,7 @@ func (hs *hSet) add(ev string, h Handler) Remover {
 func (hs *hSet) remove(hn *hNode) {
 	hs.Lock()
 	defer hs.Unlock()
+	vhook("hset.remove", nil, hs, hn.event, hn)
 	l, ok := hs.set[hn.event]
 	if !ok {
 		logging.Error("Removing node for unknown event '%s'", hn.event)
@@ -141,11 +143,14 @@ func (hs *hSet) getHandlers(ev string) []*hNode {
 	for hn := list.start; hn != nil; hn = hn.next {
 		handlers = append(handlers, hn)
 	}
+	vhook("hset.snapshot", nil, hs, ev, len(handlers))
 	return handlers
 }
 
 func (hs *hSet) dispatch(conn *Conn, line *Line) {
 	ev := strings.ToLower(line.Cmd)
+	vhook("hset.dispatch.begin", conn, hs, line)
+	defer vhook("hset.dispatch.end", conn, hs, line)
 	wg := &sync.WaitGroup{}
 	for _, hn := range hs.getHandlers(ev) {
 		wg.Add(1)
@@ -185,9 +190,12 @@ func (conn *Conn) dispatch(line *Line) {
 	// We run the internal handlers first, including all state tracking ones.
 	// This ensures that user-supplied handlers that use the tracker have a
 	// consistent view of the connection state in handlers that mutate it.
+	vhook("disp.begin", conn, line)
 	conn.intHandlers.dispatch(conn, line)
+	vhook("disp.int.end", conn, line)
 	go conn.bgHandlers.dispatch(conn, line)
 	conn.fgHandlers.dispatch(conn, line)
+	vhook("disp.end", conn, line)
 }
 
 // LogPanic is used as the default panic catcher for the client. If, like me,
